@@ -1,15 +1,17 @@
 (* Assembly.v — L3 of the model: AssemblyManager (core/_assembly.py:19-73) over
-   typed elements. Overhangs are an arbitrary type O with a key equality `oeq`
-   (equality after case folding in the instance used for DNA) and an involution
-   `orc` (reverse complement), so equal, reverse-complementary and palindromic
-   overhangs are all covered. Executable definitions only. *)
+   typed elements. Overhang keys are an arbitrary type O with a decidable
+   equality `oeq` and an involution `orc` (reverse complement); in the instance
+   used for DNA a key is the case-folded overhang (a list of codes), which is how
+   the repaired code keys its dictionary. Equal, reverse-complementary and
+   palindromic overhangs are all covered. Executable definitions only. *)
 From MV Require Import Base.
 
 Section Asm.
   Context {O : Type} (oeq : O -> O -> bool) (orc : O -> O).
 
-  (* a typed module: identity (distinct objects have distinct ids), start and end
-     overhang, the fragment target_sequence() extracts *)
+  (* a typed module: its position in the argument list (distinct objects have
+     distinct ids), start and end overhang keys, the fragment target_sequence()
+     extracts *)
   Record tmod := TM { mid : nat; mup : O; mdown : O; mfrag : list letter }.
   Record tvec := TV { vup : O; vdown : O; vfrag : list letter }.
 
@@ -75,43 +77,45 @@ Section Asm.
            end
     end.
 
-  (* _generate_assembly: the while loop; fuel bounds the number of iterations *)
-  Fixpoint walk (fuel : nat) (v : tvec) (next : O) (mp : modmap)
-           (acc : list letter) (used : list nat) : outcome :=
-    if oeq next (vup v) then Product (acc ++ vfrag v) used (map mid mp)
+  (* _generate_assembly: the while loop; fuel bounds the number of iterations.
+     b = vector.overhang_start(); returns the modules consumed, in order, and
+     what is left in the dict *)
+  Inductive wres := WChain (used rest : list tmod) | WMissing (o : O) | WFuel.
+
+  Fixpoint walk (fuel : nat) (b next : O) (mp : modmap) (used : list tmod) : wres :=
+    if oeq next b then WChain used mp
     else
       match fuel with
-      | 0 => EInternal
+      | 0 => WFuel
       | S f =>
         match pop next mp with
-        | None => EMissing next
-        | Some (m, mp') => walk f v (mdown m) mp' (acc ++ mfrag m) (used ++ [mid m])
+        | None => WMissing next
+        | Some (m, mp') => walk f b (mdown m) mp' (used ++ [m])
         end
       end.
 
-  Definition assemble (v : tvec) (ms : list tmod) : outcome :=
+  Definition finish (v : tvec) (r : wres) : outcome :=
+    match r with
+    | WChain u rest => Product (concat (map mfrag u) ++ vfrag v) (map mid u) (map mid rest)
+    | WMissing o => EMissing o
+    | WFuel => EInternal
+    end.
+
+  Definition assemble_with (clash : modmap -> modmap -> option (nat * nat))
+             (v : tvec) (ms : list tmod) : outcome :=
     if oeq (vup v) (vdown v) then EInvalid
     else
       match build_map ms [] with
       | inr (a, b) => EDuplicate a b
       | inl mp =>
-        match rc_clash mp mp with
+        match clash mp mp with
         | Some (a, b) => EDuplicate a b
-        | None => walk (S (length ms)) v (vdown v) mp [] []
+        | None => finish v (walk (S (length ms)) (vup v) (vdown v) mp [])
         end
       end.
 
-  Definition assemble_pinned_rc (v : tvec) (ms : list tmod) : outcome :=
-    if oeq (vup v) (vdown v) then EInvalid
-    else
-      match build_map ms [] with
-      | inr (a, b) => EDuplicate a b
-      | inl mp =>
-        match rc_clash_pinned mp mp with
-        | Some (a, b) => EDuplicate a b
-        | None => walk (S (length ms)) v (vdown v) mp [] []
-        end
-      end.
+  Definition assemble := assemble_with rc_clash.
+  Definition assemble_pinned_rc := assemble_with rc_clash_pinned.
 End Asm.
 
 Arguments TM {O}.
@@ -121,8 +125,17 @@ Arguments EInvalid {O}.
 Arguments EDuplicate {O}.
 Arguments EMissing {O}.
 Arguments EInternal {O}.
+Arguments WChain {O}.
+Arguments WMissing {O}.
+Arguments WFuel {O}.
 
-(* the instance used for DNA: keys compared after case folding (repaired F5);
-   the pinned code compared them exactly *)
-Definition dna_assemble := @assemble (list letter) ci_eqb rc.
+(* ---------- the instance used for DNA ---------------------------------- *)
+
+(* the key of an overhang: its letters after case folding *)
+Definition okey (w : list letter) : list code := map lcode w.
+
+Definition dna_assemble := @assemble (list code) codes_eqb rc_codes.
+
+(* the pinned code (F5) keyed the dictionary by the overhang as spelled: a key is
+   then the word itself, compared exactly *)
 Definition dna_assemble_case_sensitive := @assemble (list letter) word_eqb rc.
